@@ -19,7 +19,10 @@ func init() {
 			"each cell is judged against a per-kind range table (protobuf language guide): accept/reject verdict, stored content (proto.Equal with an independently built message), read-back through the wrapper, binary and text round trip, the same operation on the frozen message, reflective type/range walk; a cell is distinct by (file, kind, position, route, value). " +
 			"(2) View assignment m.r = m.r / o.r = m.r for every kind; live repeated/map views of a different enum/message type or scalar kind as pool values at whole-field positions (attr, kwarg, set_field); element wrappers captured in plain Starlark containers (dict(map), dict.update, .items(), list/tuple/sorted/reversed(repeated), comprehensions, loop variables, Go Items/Entries/Elements/Get) and mutated after Freeze(); decoded messages with undeclared enum numbers; corrupted encodings; extension fields; a cyclic message in a helper process. " +
 			"(3) Random histories (4..12 operations over <= 4 message variables and stored repeated/map views: construct, scalar/sub/repeated/map assignment, aliasing o.f = m.f, shallow copy M(m), element operations, stored views, plain-container captures and mutation through their elements, cross-type view assignment, iterate-and-mutate, re-encode, Freeze() directly or by finishing a module) with a snapshot-before/after oracle for every frozen message and a shadow model (storage-node identity, provenance of aliasing edges, flag groups) that names the shape; a history is distinct by its operation-kind sequence and counts as non-trivial when a mutating operation follows a freeze. " +
-			"(4) Alias-view sequences (6..14 steps): one message reached through 2..3 long-lived wrappers and fresh ones by different routes (the original value after it was assigned into a parent by kwarg/dict/attribute/set_field/append/setindex/setkey, p.f_rec, p.r_rec[i], p.mv_rec[k], one level deeper, through a shallow copy, after decoding; each route confirmed by storage identity), interleaving through a random wrapper: read-and-keep a repeated/map view, whole-field assignment (list, tuple, dict, empty, None, kept view, another wrapper's view, None-then-assign; attribute or set_field), element writes through a fresh or a kept view, scalar assignment, re-wrap; after every step every wrapper must read, for 11 fields, exactly the content of a reference model of the message, as must unmarshal(marshal(w)) in binary and text form and every kept view that is still the field's storage; a sequence is distinct by (file, set-up, operation-kind sequence) and non-trivial when a field's storage object is replaced through another wrapper than one that read it.",
+			"(4) Alias-view sequences (6..14 steps): one message reached through 2..3 long-lived wrappers and fresh ones by different routes (the original value after it was assigned into a parent by kwarg/dict/attribute/set_field/append/setindex/setkey, p.f_rec, p.r_rec[i], p.mv_rec[k], one level deeper, through a shallow copy, after decoding; each route confirmed by storage identity), interleaving through a random wrapper: read-and-keep a repeated/map view, whole-field assignment (list, tuple, dict, empty, None, kept view, another wrapper's view, None-then-assign; attribute or set_field), element writes through a fresh or a kept view, scalar assignment, re-wrap; after every step every wrapper must read, for 11 fields, exactly the content of a reference model of the message, as must unmarshal(marshal(w)) in binary and text form and every kept view that is still the field's storage; a sequence is distinct by (file, set-up, operation-kind sequence) and non-trivial when a field's storage object is replaced through another wrapper than one that read it. " +
+			"(5) Defaults of unset message fields: the value read from an UNSET message-typed field (22 read routes: q.f_msg, q.c_m, defaults of defaults, of elements and map values, get_field incl. an extension, fresh/decoded/copied messages, Go Attr; q frozen before or after the read, by Freeze() or a module, or live) is assigned into another message at 15 positions and mutated there; after every step every unset message field of q, of a frozen bystander, of the new owner and of brand-new messages must read as the empty message, and the frozen q and bystander (which was given defaults read elsewhere) must not change. " +
+			"(6) A second descriptor pool defines Sub, All and E with the same full names but other field types / an extra enum value; messages, default reads, elements, decoded messages, repeated/map views and enum values of those foreign types are offered at every message- and enum-typed position (34 Starlark forms, 8 Go forms): each must be rejected and leave every field of its declared type. " +
+			"(7) Every callable attribute of every repeated/map view (dir(view)) of a message, its sub-message, an element and a map value is looked up BEFORE the message is frozen (5 ways to freeze, incl. a module that keeps the bound methods in globals) and called AFTER with 8 argument shapes; the frozen message must not change.",
 		Assumptions: []string{
 			"google.golang.org/protobuf (dynamicpb, proto.Equal, deterministic Marshal, protodesc) is the trusted reference for storage identity, equality and encoding",
 			"per-kind ranges are those of the protobuf language guide (int32/sint32/sfixed32 -2^31..2^31-1, uint32/fixed32 0..2^32-1, int64/sint64/sfixed64 -2^63..2^63-1, uint64/fixed64 0..2^64-1); bool accepts only bool; enum accepts a declared number, a declared name or a value of the same enum; message accepts a message of the same descriptor or a dict of its fields; None unsets a singular/repeated/map field and is rejected as an element, key or map value (lib/proto setField doc)",
@@ -27,6 +30,8 @@ func init() {
 			"float/double fields are not required to read back exactly (narrowing to float32 is inherent); NaN equals NaN",
 			"a failed assignment may leave a repeated/map field partially updated (the property only requires type/range validity after a failure)",
 			"round trips are required for ordinary fields; extension fields are only checked for panics, verdict and read-back (proto.unmarshal has no extension resolver)",
+			"an unset (protoreflect Has = false) singular message field reads as an empty message of the field's type (protobuf default-value semantics); the wrapper read from it and the message it was assigned into are not judged after that assignment (recorded aliasing findings), every other message is",
+			"a message (or enum value) whose descriptor belongs to another pool, has the same full name and a different definition is not of the field's type and must be rejected; a foreign enum value whose number is declared here may be accepted or rejected",
 			"mutation during iteration is not judged here (C06); histories only require no panic and no change of frozen messages",
 			"alias-view sequences: which wrappers denote one message is taken from storage identity (lib/proto aliases a message assigned into a field, element or map value, and the sub-messages of a shallow copy); a kept view of a storage object that has since been replaced (map field reassigned, field set to None) is not judged, and a rejected element write (frozen default view of an empty field) must change nothing",
 		},
@@ -134,5 +139,29 @@ func run(c *driver.Ctx) {
 			continue
 		}
 		e.runAliasViews(e.schema.files[i%2], c.Rand())
+	}
+	// (5) defaults of unset message fields assigned elsewhere and mutated there
+	for _, fs := range e.schema.files {
+		for si := range defSources {
+			if c.Take() {
+				e.defaultShareCase(fs, si)
+			}
+		}
+	}
+	// (6) values of a foreign type with the same full name (second descriptor pool)
+	for _, fs := range e.schema.files {
+		for _, typ := range []string{"msg", "rec", "enum"} {
+			if c.Take() {
+				e.foreignTypeCase(fs, typ)
+			}
+		}
+	}
+	// (7) bound methods of views captured before a freeze and called after it
+	for _, fs := range e.schema.files {
+		for _, mode := range boundFreezeModes {
+			if c.Take() {
+				e.boundMethodCase(fs, mode)
+			}
+		}
 	}
 }
